@@ -988,6 +988,35 @@ def instantiate_hook(self, path, cls, args, kwargs):
                 j = pool.classes.index(cls)
                 o = alloc_in(path, r, j)
                 owner, raw = MC.class_lookup(cls, '__init__')
+                import dataclasses as _dc
+
+                if _dc.is_dataclass(cls) and isinstance(raw, types.FunctionType) and raw.__code__.co_filename == '<string>':
+                    # generated __init__ (same binding rules as models_calls.instantiate_repo_class)
+                    names = [f.name for f in _dc.fields(cls) if f.init]
+                    if len(args) > len(names):
+                        raise PyExc(TypeError('too many positional arguments'))
+                    vals = dict(zip(names, args))
+                    for k, v in kwargs.items():
+                        if k not in names or k in vals:
+                            raise PyExc(TypeError(f'unexpected argument {k}'))
+                        vals[k] = v
+                    for f in _dc.fields(cls):
+                        if f.name in vals:
+                            continue
+                        if f.default is not _dc.MISSING:
+                            vals[f.name] = path.import_native(f.default)
+                        elif f.default_factory is not _dc.MISSING:
+                            vals[f.name] = path.call(path.import_native(f.default_factory), [], {})
+                        elif f.init:
+                            raise PyExc(TypeError(f'missing argument {f.name}'))
+                    for k, v in vals.items():
+                        setattr_(path, o, k, v)
+                    pi_owner, pi = MC.class_lookup(cls, '__post_init__')
+                    if isinstance(pi, types.FunctionType):
+                        f = path.func_of_native(pi)
+                        f.cls = pi_owner
+                        path.call(f, [o], {})
+                    return o
                 if isinstance(raw, types.FunctionType):
                     f = path.func_of_native(raw)
                     if isinstance(f, Func):
